@@ -967,7 +967,7 @@ impl Error {
 
         impl fmt::Display for RenderDisplay<'_> {
             fn fmt(&self, f: &mut fmt::Formatter<'_>) -> fmt::Result {
-                fmt_error_rendered(f, self.err, self.options)
+                fmt_error_terminal_safe(f, self.err, self.options)
             }
         }
 
@@ -1689,8 +1689,47 @@ fn search_locations_with_ancestor_fallback(
 
 impl fmt::Display for Error {
     fn fmt(&self, f: &mut fmt::Formatter<'_>) -> fmt::Result {
-        fmt_error_rendered(f, self, RenderOptions::default())
+        fmt_error_terminal_safe(f, self, RenderOptions::default())
     }
+}
+
+/// `fmt::Write` adapter replacing terminal control characters in everything written through it.
+///
+/// Messages reflect keys, values and variant names taken from the input (and custom formatters
+/// may add more), so the whole rendered report is filtered, not only the source snippet.
+struct TerminalSafeWriter<'a, 'b>(&'a mut fmt::Formatter<'b>);
+
+impl fmt::Write for TerminalSafeWriter<'_, '_> {
+    fn write_str(&mut self, s: &str) -> fmt::Result {
+        if crate::de_snipped::is_terminal_snippet_clean(s) {
+            self.0.write_str(s)
+        } else {
+            self.0
+                .write_str(&crate::de_snipped::sanitize_terminal_snippet_preserve_len(s.to_owned()))
+        }
+    }
+}
+
+fn fmt_error_terminal_safe(
+    f: &mut fmt::Formatter<'_>,
+    err: &Error,
+    options: RenderOptions<'_>,
+) -> fmt::Result {
+    struct Raw<'a> {
+        err: &'a Error,
+        options: RenderOptions<'a>,
+    }
+
+    impl fmt::Display for Raw<'_> {
+        fn fmt(&self, f: &mut fmt::Formatter<'_>) -> fmt::Result {
+            fmt_error_rendered(f, self.err, self.options)
+        }
+    }
+
+    fmt::Write::write_fmt(
+        &mut TerminalSafeWriter(f),
+        format_args!("{}", Raw { err, options }),
+    )
 }
 
 #[cfg(feature = "garde")]
